@@ -3,8 +3,10 @@
 //! output of the extracted Coq models (`ocaml/modelrun`).  One module per case kind; each exports
 //! `cli(args) -> bool`.
 mod attr;
+mod binbytes;
 mod binfile;
 mod binoracle;
+mod binspec;
 mod forest;
 mod dbdump;
 mod domops;
@@ -26,7 +28,7 @@ mod xmlspecgen;
 fn main() {
     std::panic::set_hook(Box::new(|_| {}));
     let args: Vec<String> = std::env::args().collect();
-    let handled = serde17::cli(&args) || xmlfile::cli(&args) || binfile::cli(&args) || fault::cli(&args) || xmlchannel::cli(&args) || uidgen::cli(&args) || dbdump::cli(&args) || domops::cli(&args) || sched::cli(&args) || attr::cli(&args);
+    let handled = binbytes::cli(&args) || binspec::cli(&args) || serde17::cli(&args) || xmlfile::cli(&args) || binfile::cli(&args) || fault::cli(&args) || xmlchannel::cli(&args) || uidgen::cli(&args) || dbdump::cli(&args) || domops::cli(&args) || sched::cli(&args) || attr::cli(&args);
     if !handled {
         eprintln!("usage: rbxverif <kind>-<gen|run> ...");
         std::process::exit(2);
